@@ -77,6 +77,11 @@ def Storage.adapt (bo : ByteOrder) (nbits : Nat) : Storage → Storage
   | .bytes (some d) => .bits (if d.length * 8 = nbits then some (decodeBytes bo d) else none) nbits
   | .bits v n => .bits v n
 
+/-- `_get_adapted_cpp_buffer_type_for_field`: a bit-addressed type directly inside a byte
+structure reads through a `BitBlock`; everything else uses the storage as it is. -/
+def Storage.adaptFor (parentUnit targetUnit : Nat) (bo : ByteOrder) (nbits : Nat) (st : Storage) : Storage :=
+  if parentUnit = 8 ∧ targetUnit ≠ 8 then st.adapt bo nbits else st
+
 /-! ### scalars (minimal local decode; the scalar layer proper is C02's `Emboss.Model.Scalar`) -/
 
 inductive ScalarKind where
@@ -210,16 +215,19 @@ def subView (o : Oracle) (m : Module) (w : SView) (f : Field) (start size : Expr
   | some sd =>
     match evalArgs (envOf o w none) args, physStorage o w f start size with
     | some vs, some st =>
-      some { sd := sd, params := some vs,
-             st := if sd.unit = 8 then st else st.adapt bo bits }
+      some { sd := sd, params := some vs, st := st.adaptFor w.sd.unit sd.unit bo bits }
     | _, _ => some (nullView sd)
 
-/-- Leaf view over adapted storage: `(IsComplete, Ok ? value)`. -/
+/-- `buffer_.SizeInBits() >= kBits` (`> 0` for `Flag`) -/
+def leafSizeOk (k : ScalarKind) (bits n : Nat) : Bool :=
+  if k = .flag then decide (0 < n) else decide (bits ≤ n)
+
+/-- Leaf view over adapted storage: `Ok() ? some (Read()) : none`. -/
 def leafRead (o : Oracle) (w : SView) (k : ScalarKind) (bits : Nat) (req : Option Expr)
     (st : Storage) : Option Val :=
   match st with
   | .bits (some v) n =>
-    if (if k = .flag then 0 < n else bits ≤ n) then
+    if leafSizeOk k bits n then
       match scalarDecode k bits v with
       | some x => if valueIsOk o w req x then some x else none
       | none => none
@@ -228,7 +236,7 @@ def leafRead (o : Oracle) (w : SView) (k : ScalarKind) (bits : Nat) (req : Optio
 
 def leafComplete (k : ScalarKind) (bits : Nat) (st : Storage) : Bool :=
   match st with
-  | .bits (some _) n => if k = .flag then decide (0 < n) else decide (bits ≤ n)
+  | .bits (some _) n => leafSizeOk k bits n
   | _ => false
 
 /-- `MaybeRead()` + `ValueIsOk` of a virtual field. -/
@@ -246,12 +254,11 @@ def elemsOk (check : Storage → Bool) (st : Storage) (es : Nat) : Nat → Bool
 def typeOk (o : Oracle) (m : Module) (w : SView) (bo : ByteOrder) :
     PType → Storage → Bool
   | .scalar k bits req, st =>
-    (leafRead o w k bits req (if w.sd.unit = 8 then st.adapt bo bits else st)).isSome
+    (leafRead o w k bits req (st.adaptFor w.sd.unit 1 bo bits)).isSome
   | .struct name bits args, st =>
     match m.find name, evalArgs (envOf o w none) args with
     | some sd, some vs =>
-      o.okAt { sd := sd, params := some vs,
-               st := if sd.unit = 8 then st else st.adapt bo bits } []
+      o.okAt { sd := sd, params := some vs, st := st.adaptFor w.sd.unit sd.unit bo bits } []
     | _, _ => false
   | .array elem es, st =>
     st.ok && es ≠ 0 && st.size % es = 0 && elemsOk (typeOk o m w bo elem) st es (st.size / es)
@@ -273,7 +280,7 @@ def step (m : Module) (o : Oracle) : Oracle where
         match f.kind, rest with
         | .phys start size (.scalar k bits req) bo, [] =>
           match physStorage o w f start size with
-          | some st => leafRead o w k bits req (if w.sd.unit = 8 then st.adapt bo bits else st)
+          | some st => leafRead o w k bits req (st.adaptFor w.sd.unit 1 bo bits)
           | none => none
         | .phys start size (.struct name bits args) bo, _ :: _ =>
           match subView o m w f start size name bits args bo with
@@ -362,6 +369,38 @@ def isComplete (o : Oracle) (w : SView) : Bool :=
 
 def rootView (sd : StructDef) (params : List Val) (buf : List Nat) : SView :=
   { sd := sd, params := some params, st := .bytes (some buf) }
+
+/-! ### well-formedness the driver checks on every real IR (hypothesis of the C01 theorems) -/
+
+def constInt? : Expr → Option Int
+  | .const (.int k) => some k
+  | .fold (.int k) _ => some k
+  | _ => none
+
+/-- In a byte structure every bit-addressed field (prelude scalar, enum, `bits` type) has a
+constant size of exactly `bits/8` bytes — the compiler enforces it ("fixed-size type … cannot be
+placed in field of size …"); the generated `BitBlock<…, bits>` relies on it. -/
+def fieldWF (m : Module) (unit : Nat) (f : Field) : Bool :=
+  match f.kind with
+  | .phys _ size (.scalar _ bits _) _ =>
+    unit != 8 || (match constInt? size with
+                  | some s => decide (0 ≤ s) && s.toNat * 8 == bits
+                  | none => false)
+  | .phys _ size (.struct name bits _) _ =>
+    unit != 8 ||
+      (match m.find name with
+       | some sd => sd.unit == 8 ||
+           (match constInt? size with
+            | some s => decide (0 ≤ s) && s.toNat * 8 == bits
+            | none => false)
+       | none => true)
+  | _ => true
+
+def structWF (m : Module) (sd : StructDef) : Bool :=
+  sd.fields.all (fieldWF m sd.unit)
+
+def moduleWF (m : Module) : Bool :=
+  m.structs.all (structWF m)
 
 /-! ### static fuel check -/
 
